@@ -19,6 +19,7 @@ import (
 	"github.com/bluenviron/gortsplib/v5/pkg/description"
 	"github.com/bluenviron/gortsplib/v5/pkg/format"
 	"github.com/bluenviron/gortsplib/v5/pkg/liberrors"
+	"github.com/pion/rtp"
 )
 
 // Cfg is a server configuration.
@@ -27,6 +28,8 @@ type Cfg struct {
 	UDP     bool   `json:"udp"`
 	Mcast   bool   `json:"mcast"`
 	TLS     bool   `json:"tls"`
+	BackCh  bool   `json:"back_ch,omitempty"`  // scenarios only: the stream has a third media, an ONVIF back channel (trackID=2)
+	SlowRTP bool   `json:"slow_rtp,omitempty"` // scenarios only: the application's OnPacketRTP of a recording session takes 1 ms
 }
 
 func (c Cfg) String() string {
@@ -248,7 +251,12 @@ func (m mPlay) OnPlay(_ *gortsplib.ServerHandlerOnPlayCtx) (*base.Response, erro
 
 type mRecord struct{ c *core }
 
-func (m mRecord) OnRecord(_ *gortsplib.ServerHandlerOnRecordCtx) (*base.Response, error) {
+func (m mRecord) OnRecord(ctx *gortsplib.ServerHandlerOnRecordCtx) (*base.Response, error) {
+	if m.c.ts.cfg.SlowRTP {
+		ctx.Session.OnPacketRTPAny(func(*description.Media, format.Format, *rtp.Packet) {
+			time.Sleep(time.Millisecond)
+		})
+	}
 	return &base.Response{StatusCode: base.StatusOK}, nil
 }
 
@@ -325,7 +333,16 @@ var (
 )
 
 // streamDesc is the description of the published stream: two medias with one format each.
-func streamDesc() *description.Session {
+func streamDesc(backCh bool) *description.Session {
+	d := streamDesc2()
+	if backCh {
+		d.Medias = append(d.Medias, &description.Media{Type: description.MediaTypeAudio, IsBackChannel: true,
+			Formats: []format.Format{&format.G711{PayloadTyp: 8, MULaw: false, SampleRate: 8000, ChannelCount: 1}}})
+	}
+	return d
+}
+
+func streamDesc2() *description.Session {
 	return &description.Session{Medias: []*description.Media{
 		{Type: description.MediaTypeVideo, Formats: []format.Format{&format.H264{PayloadTyp: 96, PacketizationMode: 1}}},
 		{Type: description.MediaTypeAudio, Formats: []format.Format{&format.G711{PayloadTyp: 0, MULaw: true, SampleRate: 8000, ChannelCount: 1}}},
@@ -377,6 +394,10 @@ func startServerW(cfg Cfg, idle, read, write time.Duration, seed uint64) (*testS
 			s.TLSConfig = &tls.Config{Certificates: []tls.Certificate{cert}}
 		}
 		s.VerifSetCheckStreamPeriod(100 * time.Millisecond)
+		if cfg.BackCh {
+			// receiver reports of the back channel flow quickly (default: every 10 s)
+			s.VerifSetReportPeriods(10*time.Second, 150*time.Millisecond)
+		}
 		if err := s.Start(); err != nil {
 			lastErr = err
 			continue
@@ -388,7 +409,7 @@ func startServerW(cfg Cfg, idle, read, write time.Duration, seed uint64) (*testS
 		return nil, fmt.Errorf("server did not start: %w", lastErr)
 	}
 	ts.addr = ts.s.NetListener().Addr().String()
-	ts.stream = &gortsplib.ServerStream{Server: ts.s, Desc: streamDesc()}
+	ts.stream = &gortsplib.ServerStream{Server: ts.s, Desc: streamDesc(cfg.BackCh)}
 	if err := ts.stream.Initialize(); err != nil {
 		ts.s.Close()
 		return nil, err
